@@ -544,6 +544,38 @@ func c02Run(c *engine.Ctx) {
 			c02Check(c, "structure", "empty-neighbour", r.String, func() any { return r.Build() }, both, true)
 		})
 	}
+	// members that have nothing to say: every item property of every type holds a list whose members are all empty values (an empty
+	// object, an empty link, by pointer and by value) - alone (the property is then the LAST thing written) and before another
+	// property. Whatever the writer decides about such a list, the bytes are empty or one valid JSON value.
+	for i := range universe.Structs {
+		s := &universe.Structs[i]
+		for _, f := range s.ItemFields() {
+			if f.Term == "id" || f.Term == "type" {
+				continue
+			}
+			for vi, members := range []func() ap.ItemCollection{
+				func() ap.ItemCollection { return ap.ItemCollection{&ap.Object{}} },
+				func() ap.ItemCollection { return ap.ItemCollection{ap.Object{}, &ap.Link{}} },
+				func() ap.ItemCollection { return ap.ItemCollection{&ap.Object{}, ap.IRI(""), &ap.Actor{}} },
+			} {
+				for _, withID := range []bool{false, true} {
+					s, f, members, withID := s, f, members, withID
+					desc := func() string {
+						return fmt.Sprintf("%s{%s: list #%d of members that say nothing, id=%v}", s.Name, f.Term, vi, withID)
+					}
+					c02Check(c, "structure", "silent-members", desc, func() any {
+						p := reflect.New(s.Type)
+						if withID {
+							p.Elem().FieldByName("ID").Set(reflect.ValueOf(ap.IRI("https://example.com/1")))
+						}
+						p.Elem().FieldByName("Type").Set(reflect.ValueOf(ap.ActivityVocabularyType(s.SpecificName())))
+						p.Elem().Field(f.Index).Set(reflect.ValueOf(members()))
+						return p.Interface()
+					}, both, true)
+				}
+			}
+		}
+	}
 	// (ii) hostile strings
 	type hs struct{ class, s string }
 	var hostile []hs
